@@ -40,6 +40,7 @@ class UnionNode(XmlNode):
         "level",
         "meta",
         "ns_map",
+        "ns_maps",
         "position",
         "var",
     )
@@ -63,6 +64,7 @@ class UnionNode(XmlNode):
         self.config = config
         self.context = context
         self.level = 0
+        self.ns_maps: list[dict] = []
         self.candidates = self.filter_candidates()
         self.events: list[tuple[str, str, Any, Any]] = []
 
@@ -114,6 +116,9 @@ class UnionNode(XmlNode):
         """
         self.level += 1
         self.events.append(("start", qname, copy.deepcopy(attrs), ns_map))
+        # This node stands in for every descendant, their prefixes included
+        self.ns_maps.append(self.ns_map)
+        self.ns_map = ns_map
         return self
 
     def bind(
@@ -147,6 +152,9 @@ class UnionNode(XmlNode):
 
         if self.level > 0:
             self.level -= 1
+            if self.ns_maps:
+                self.ns_map = self.ns_maps.pop()
+
             return False
 
         if self.var.nillable and len(self.events) == 1 and ParserUtils.xsi_nil(self.attrs):
